@@ -119,7 +119,12 @@ pub enum FsCommand {
 impl FsCommand {
     /// Obtains a lock to the file if lock == true.
     fn maybe_lock(path: &Path, lock: bool) -> io::Result<Option<FileLock>> {
-        if lock {
+        // A symbolic link (reported with `--symbolic-links`) cannot be locked itself.
+        // Opening it would lock its target instead, or fail if the target is already gone.
+        let is_symlink = fs::symlink_metadata(path.to_path_buf())
+            .map(|m| m.file_type().is_symlink())
+            .unwrap_or(false);
+        if lock && !is_symlink {
             match FileLock::new(path) {
                 Ok(lock) => Ok(Some(lock)),
                 Err(e) if e.kind() == ErrorKind::Unsupported => Ok(None),
